@@ -10,6 +10,31 @@ CLAIMED = {
    note="Float division/ceil in __init__ and tscale read as real arithmetic (A-REAL, sound below 2^52); Hann complement identity assumed (A-SCIPY; the code asserts it itself). "
         "A native box (bounded, not counted) cross-checks the engine against CPython.",
    tech="AST->z3 VC generation, Hoare loop invariants, generator contracts (deductive)"),
+ "C11": dict(cat="proof", ref="DESIGN.md 4/C11",
+   text="Reader.open (flat + compressed branch), ns, rl, shape and OnlineReader.ns executed symbolically for every file size, channel count, item size, rate and announced duration: "
+        "memmap fits (no raise), ns == floor(bytes/frame), values are the file prefix, duration matches; the cached size of an online reader may be stale.",
+   note="A-FS (np.memmap semantics), A-REAL (the binary64 round trip ns->fileTimeSecs->ns is only checked natively, bounded), A-MTSCOMP for the stream length.",
+   tech="AST->z3 VC generation with a ghost file system (deductive)"),
+ "C10": dict(cat="proof", ref="DESIGN.md 4/C10",
+   text="split_sync proved for a word array of any length: line k == bit k of the word for k=0..15 (integer div/mod arithmetic, complete over all 65536 words), 1-D and (n,1) inputs; "
+        "fronts/rises/falls: soundness, polarity, order and completeness of the returned indices for 1-D and 2-D inputs along either axis; read_sync digital layout through the reader.",
+   note="A-ENDIAN (asserted natively), A-NP-SPEC for unpackbits / where / diff, A-REAL for analog thresholds. Re-writes of split_sync outside the modelled NumPy subset degrade to the exhaustive native check of all 65536 words (bounded tier).",
+   tech="AST->z3 VC generation, index-function arrays, where() specification axioms (deductive)"),
+ "C01": dict(cat="other", ref="DESIGN.md 4/C01",
+   text="Reader.__getitem__/read/read_samples proved equal to NumPy indexing of the whole calibrated, geometry-ordered array for every selector shape (int, any slice incl. negative steps and out-of-range bounds, "
+        "integer arrays) x every file size; raw_channel_order construction in __init__ against geometry_from_meta's contract; sync unscaled; file untouched. Level other: cbin path and dtype of 0-d results rest on the bounded native stand-in over all shipped metas.",
+   note="A-NP-INDEX, A-REAL (which sample meets which gain; not float32 rounding), A-MTSCOMP. array x array selectors are outside the claim (outer vs point-wise not fixed by the statement). Known finding F-C01-1 (bare list index).",
+   tech="AST->z3 VC generation with abstract selector index functions (deductive) + bounded native stand-in"),
+ "C09": dict(cat="other", ref="DESIGN.md 4/C09",
+   text="Derived quantities proved for every probe generation/stream with symbolic numeric fields and an abstract IMRO table of symbolic length: s2v*gain*maxint == range, 1 on sync, length == nSavedChans; nidq segments; type/fs/counts/sync indices. "
+        "The textual read->write->read round trip is a bounded stand-in over a grammar-generated corpus + shipped files (string theories do not decide float()/repr()).",
+   note="A-STR-FREE/A-SGLX (regex on imroTbl yields entries; split fields are the numbers). Known finding F-C09-1 (scalars < 1e-4).",
+   tech="AST->z3 VC generation over a symbolic metadata record (deductive) + bounded round-trip stand-in"),
+ "C08": dict(cat="other", ref="DESIGN.md 4/C08",
+   text="geometry_from_meta proved for site tables of any length in both encodings: the sort is a bijection moving every key together, ordered by (shank,row,-col); rc<->xy inverse on the three grids; the two encodings agree; split shank == restriction of the parent. "
+        "ADC tables and canonical layouts: exhaustive native enumeration of the finite configuration space.",
+   note="A-NP-SPEC (lexsort, where), A-SGLX, map-string parsing summarised by contract. Known finding F-C08-1 (ADC delays for non-prefix channel subsets). History effects (caching across calls) only in the bounded stand-in (derives twice).",
+   tech="AST->z3 VC generation with permutation/where specification axioms (deductive) + exhaustive enumeration of tables"),
 }
 NA = {
  "C19": "statistical recovery statement about a heuristic (cross-correlation + greedy matching); no contract over sync_timestamps decides it for all inputs - see DESIGN.md section 5",
